@@ -102,7 +102,8 @@ Definition run_conveqc (x y : N) : list string :=
        ++ " val=" ++ sN (tagtype_val (Custom x))
        ++ " id=" ++ sN (u32_of_id (id_of_tagtype (Custom x)))) ].
 
-Definition run_elfty (raw : N) : list string := [ line "section_type" (sElfType (elf_section_type raw)) ].
+Definition run_elfty (raw : N) : list string :=
+  [ line "section_type" (sElfType (elf_section_type raw)); line "section_type_raw" (sN raw) ].
 Definition run_fb (b : N) : list string := [ line "fb_type" (sRes sFbId (fb_try_from b)) ].
 Definition run_magic : list string :=
   [ line "magic" ("mbi=" ++ sN MBI_MAGIC ++ " hdr=" ++ sN HDR_MAGIC ++ " header_tag_types=" ++ sN HDR_TAG_TYPES) ].
